@@ -270,6 +270,14 @@ def annotate_expected(scn, arrays, cfg=None):
         w = cfg["contexts"][e["ctx"]].get("window")
         e["window"] = w
         rows = pl.model_rows(w, times)
+        side = tbl.get("side")
+        if side and e["entry"]["sid"] == side["name"]:
+            # not along the time dimension: no window applies to it and the stream has no axis to supply for it
+            rows = np.ones(len(side["values"]), dtype=bool)
+            e["rows"] = rows
+            res, err = pl.direct_call(e["entry"], arrays, rows, axes_present={"tinp": False, "zinp": False, "lat": False, "lon": False})
+            e["direct"], e["direct_err"], e["fails"], e["side"] = res, err, res is None, True
+            continue
         e["rows"] = rows
         res, err = pl.direct_call(e["entry"], arrays, rows)
         e["direct"] = res
